@@ -139,6 +139,11 @@ class EngineE:
                     rows.append(list(p))
             g.shuffle(rows)
             vals = [float(g.choice([-2, -1, -0.5, 0.25, 0.5, 1, 1, 2, 3])) for _ in rows]
+            if g.random() < 0.2:
+                # tiny but non-zero magnitudes: only an exact zero result may be dropped
+                # (integer multiples of a power of two, so that sums are exact whatever the summation order)
+                tiny = g.choice([2.0**-60, 2.0**-200, 2.0**-1000, 2.0**-1074])
+                vals = [float(g.choice([-2, -1, 1, 1, 2, 3])) * tiny for _ in vals]
             if g.random() < 0.3 and len(rows) >= 2:
                 # a group whose sum is zero
                 i = g.randrange(len(rows))
